@@ -167,7 +167,7 @@ fn interesting(cx: &mut Cx) -> u64 {
 
 pub fn run(cfg: &Cfg) -> Result<Outcome, String> {
     let stats = run_sharded(cfg, |cx| {
-        let pairs = cx.budget(400_000, 20_000_000);
+        let pairs = cx.budget(1_500_000, 40_000_000);
         for i in 0..pairs {
             let a = interesting(cx);
             let b = match i % 6 {
